@@ -28,13 +28,6 @@ def okBool : Option Bool → String
   | some b => "ok:" ++ fmtBool b
   | none => "panic"
 
-/-- append all leafs to an accumulator -/
-def appendAll (H : α → α → α) : List α → Acc α → Option (Acc α)
-  | [], a => some a
-  | x :: xs, a => match a.append H x with
-    | none => none
-    | some (a', _) => appendAll H xs a'
-
 def removeAt (xs : List α) (i : Nat) : List α := xs.take i ++ xs.drop (i + 1)
 def insertAt (xs : List α) (i : Nat) (x : α) : List α := xs.take i ++ [x] ++ xs.drop i
 
@@ -48,6 +41,7 @@ def tamper (kind : String) (pos : Nat) (d : Dg) (paths : List Dg) (old new : Acc
   | "none" => some (paths, old, new)
   | "alter_path" => some (altL paths, old, new)
   | "drop_path" => some (dropL paths, old, new)
+  | "drop_last" => some (paths.dropLast, old, new)
   | "add_path" => some (addL paths, old, new)
   | "swap_path" =>
     if paths.length < 2 then some (paths, old, new) else
@@ -79,7 +73,7 @@ def freeCheckPair (oldN m : Nat) : Bool :=
   match Acc.newFromLeafs T.node oldLeafs { count := 0, peaks := [] } with
   | none => false
   | some old =>
-    match appendAll T.node newLeafs old, newFromBatchAppend T.node (T.leaf 0) old newLeafs with
+    match Acc.appendAll T.node newLeafs old, newFromBatchAppend T.node (T.leaf 0) old newLeafs with
     | some new, some paths =>
       old.peaks == TF.Spec.MmrE.peaks T.node oldN f &&
       new.peaks == TF.Spec.MmrE.peaks T.node (oldN + m) f &&
@@ -96,7 +90,7 @@ def mmrs : Handler
     let op ← op.natListList?
     let leafs ← leafs.natListList?
     let old : Acc Dg := { count := oc, peaks := op }
-    pure <| match appendAll Hh leafs old, newFromBatchAppend Hh dflt old leafs with
+    pure <| match Acc.appendAll Hh leafs old, newFromBatchAppend Hh dflt old leafs with
       | some new, some paths =>
         match verify Hh dflt paths old new with
         | some b => "ok:" ++ fmtDigests paths ++ ":" ++ fmtBool b
@@ -107,7 +101,7 @@ def mmrs : Handler
     let leafs ← leafs.natListList?
     let d ← d.natList?
     let old : Acc Dg := { count := oc, peaks := op }
-    match appendAll Hh leafs old, newFromBatchAppend Hh dflt old leafs with
+    match Acc.appendAll Hh leafs old, newFromBatchAppend Hh dflt old leafs with
     | some new, some paths =>
       let (p', o', n') ← tamper kind pos d paths old new
       pure (okBool (verify Hh dflt p' o' n'))
